@@ -62,7 +62,9 @@ func w1GenProp(r *rand.Rand, c *simrt.Case, nclients, maxOps int, prop, tier str
 				c.Faults = append(c.Faults, simrt.Fault{Kind: "crash", Key: "b0", Nth: 20 + r.IntN(200)})
 			}
 		}
-	case "C03", "C04", "C22":
+	case "C22":
+		w1GenTopics(r, c, nclients, maxOps)
+	case "C03", "C04":
 		cfg["topics"] = 2
 		cfg["partitions"] = 2
 		cfg["topic_alias"] = 0
